@@ -106,6 +106,10 @@ class Scope(object):
     self.function_name = function_name
 
     self.isolated_names = set()
+    # Names isolated in this scope or in any of the scopes merged into it (e.g.
+    # exception variables). They are invisible to the dataflow analyses, but
+    # still must not be used for generated symbols.
+    self.hidden_names = set()
 
     self.read = set()
     self.modified = set()
@@ -133,7 +137,8 @@ class Scope(object):
   def referenced(self):
     # Note: names that are only written still belong to the user; generated
     # symbols must avoid them as well.
-    own = self.read | self.modified | self.bound
+    own = (self.read | self.modified | self.bound | self.isolated_names |
+           self.hidden_names)
     if self.parent is not None:
       return own | self.parent.referenced
     return own
@@ -150,6 +155,7 @@ class Scope(object):
       assert other.parent is not None
       self.parent.copy_from(other.parent)
     self.isolated_names = copy.copy(other.isolated_names)
+    self.hidden_names = copy.copy(other.hidden_names)
     self.modified = copy.copy(other.modified)
     self.read = copy.copy(other.read)
     self.deleted = copy.copy(other.deleted)
@@ -175,6 +181,7 @@ class Scope(object):
       assert other.parent is not None
       self.parent.merge_from(other.parent)
     self.isolated_names.update(other.isolated_names)
+    self.hidden_names.update(other.hidden_names)
     self.read.update(other.read)
     self.modified.update(other.modified)
     self.bound.update(other.bound)
@@ -189,6 +196,7 @@ class Scope(object):
     if self.parent is not None:
       assert not self.parent.is_final
       if not self.isolated:
+        self.parent.hidden_names.update(self.isolated_names | self.hidden_names)
         self.parent.read.update(self.read - self.isolated_names)
         self.parent.modified.update(self.modified - self.isolated_names)
         self.parent.bound.update(self.bound - self.isolated_names)
